@@ -62,6 +62,10 @@ class IdentityLinearOperator(ConstantDiagLinearOperator):
         else:
             return rhs
 
+    def _bilinear_derivative(self, left_vecs: Tensor, right_vecs: Tensor) -> Tuple[Optional[Tensor], ...]:
+        # representation() is empty: there is no tensor to return a gradient for
+        return ()
+
     @cached(name="cholesky", ignore_args=True)
     def _cholesky(
         self: Float[LinearOperator, "*batch N N"], upper: Optional[bool] = False
